@@ -247,6 +247,29 @@ def gen_items(tier, seed, lfactor=3):
             name = nm()
             items.append(Item(name, "arr_repeat_type_expression", {"T": tk, "N": n, "type": texpr},
                               f"    let a: GenericArray<{ty}, {texpr}> = arr![{lit(x)}; {texpr}];\n    sum!(h, a.as_slice(), {vf});", psum(7, [x] * n, enc)))
+    # macro hygiene in const position: element expressions that mention the caller's own items (macro_rules! hygiene does not
+    # cover items, so a helper item of the same name inside the expansion would capture them)
+    cnames = ["LEN", "N", "LENGTH", "INPUT_LENGTH", "SIZE", "COUNT", "CAP", "USIZE", "ARR", "ARRAY", "INPUT", "VALUE", "INIT", "ITEM"] + [chr(c) for c in range(ord("A"), ord("Z") + 1) if chr(c) not in "NDV"]
+    fnames = ["len", "n", "f", "x", "helper", "transmute", "do_transmute", "from_array", "make", "build", "init", "value", "array", "length", "convert", "cast"]
+    rng.shuffle(cnames)
+    rng.shuffle(fnames)
+    for gi in range(4):
+        cs, fs = cnames[gi::4], fnames[gi::4]
+        n = [3, 5, 8, 2][gi]
+        cv = {c: rng.randrange(1 << 32) for c in cs}
+        fv = {f: rng.randrange(1 << 32) for f in fs}
+        decl = "".join(f"    const {c}: u32 = {v}u32;\n" for c, v in cv.items()) + "".join(f"    const fn {f}() -> u32 {{ {v}u32 }}\n" for f, v in fv.items())
+        expr = " ^ ".join(cs) + " ^ " + " ^ ".join(f"{f}()" for f in fs)
+        want = 0
+        for v in list(cv.values()) + list(fv.values()):
+            want ^= v
+        lst = [c for c in cs] + [f"{f}()" for f in fs]
+        lvals = list(cv.values()) + list(fv.values())
+        for form, arg, ln, vals in [("type", f"{expr}; U{n}", n, [want] * n), ("const", f"{expr}; {n}", n, [want] * n), ("type_expression", f"{expr}; Sum<U{n}, U0>", n, [want] * n),
+                                    ("list", ", ".join(lst), len(lst), lvals)]:
+            name = nm()
+            items.append(Item(name, "arr_caller_items_" + form, {"T": "u32", "N": ln, "consts": cs, "fns": fs},
+                              f"{decl}    let a: GenericArray<u32, U{ln}> = arr![{arg}];\n    sum!(h, a.as_slice(), v_u32);", psum(7, vals, lambda v: v)))
     # const_default
     for n in NS:
         name = nm()
@@ -280,7 +303,6 @@ def program(items):
 
 def run(root, pid, tier, seed, only=None, lfactor=3, rule=None):
     t0 = time.time()
-    lib = E.Lib(root)
     wd = E.workdir(root, pid)
     items, rejects = gen_items(tier, seed, lfactor)
     if only is not None:
@@ -288,64 +310,71 @@ def run(root, pid, tier, seed, only=None, lfactor=3, rule=None):
         rejects = [r for r in rejects if r[0].startswith("chunks_")]
     nchunks = 16
     chunks = [items[i::nchunks] for i in range(nchunks)]
-
-    def do(ci):
-        src = os.path.join(wd, f"const_{ci}.rs")
-        exe = os.path.join(wd, f"const_{ci}")
-        text, spans = program(chunks[ci])
-        open(src, "w").write(text)
-        rc, err = lib.rustc(src, exe)
-        if rc != 0:
-            return ("compile", ci, err, spans)
-        rc, out, err2 = E.run_exe(exe)
-        return ("run", ci, rc, out, err2)
-
-    def do_reject(r):
-        name, body = r
-        src = os.path.join(wd, f"reject_{name}.rs")
-        open(src, "w").write(PRELUDE + body + "\nfn main() {}\n")
-        rc, err = lib.rustc(src, out=os.path.join(wd, f"reject_{name}.rmeta"), check_only=True)
-        return name, body, rc, E.error_codes(err), err
-
-    results = E.pmap(do, range(nchunks))
-    rej_results = E.pmap(do_reject, rejects)
     failures = []
     by_name = {it.name: it for it in items}
-    bad_items = {}
-    for r in results:
-        if r[0] == "compile":
-            _, ci, err, spans = r
-            hit = False
-            for m in re.finditer(r"--> [^\n]*const_%d\.rs:(\d+):" % ci, err):
-                ln = int(m.group(1))
-                for (a, b, it) in spans:
-                    if a <= ln <= b:
-                        first = err[max(0, err.rfind("error", 0, m.start())):m.start()].strip().splitlines()
-                        bad_items.setdefault(it.name, "the const evaluator rejected it: " + (first[0] if first else "error"))
-                        hit = True
-            if not hit:
-                print(err[-3000:])
-                print(f"INFRA: const program {ci} does not compile and the error could not be attributed to an item")
-                return None
-        else:
-            _, ci, rc, out, err2 = r
-            if "DONE bad=" not in out:
-                print(out[-1500:], err2[-1500:])
-                print(f"INFRA: const program {ci} did not finish (rc={rc})")
-                return None
-            for line in out.splitlines():
-                if line.startswith("FAIL "):
-                    bad_items.setdefault(line.split()[1], line)
-    for name, why in list(bad_items.items())[:12]:
-        it = by_name[name]
-        text, _ = program([it])
-        path = E.save_replay(root, pid, it.tmpl, f"// C18 item: template={it.tmpl} params={it.params}\n// expect: accept\n" + text)
-        failures.append({"msg": f"{it.tmpl} {it.params}: {why}", "replay": path})
-    for name, body, rc, codes, err in rej_results:
-        if rc == 0 or "E0080" not in codes:
-            text = f"// C18 item: {name}\n// expect: reject\n" + PRELUDE + body + "\nfn main() {}\n"
-            path = E.save_replay(root, pid, "reject_" + name[:30], text)
-            failures.append({"msg": f"const item {name} must be rejected with E0080 but rustc said rc={rc} codes={codes}", "replay": path})
+    # the same items against the crate built in the dev profile (debug assertions on) and in the release profile (off):
+    # a documented panic that only exists with debug assertions is not part of the API
+    for cfg in (None, E.RELEASE_FULL):
+        lib = E.Lib(root, cfg)
+        tag = "" if cfg is None else "_" + cfg[0]
+        label = "" if cfg is None else "[crate built in the release profile, debug assertions off] "
+
+        def do(ci):
+            src = os.path.join(wd, f"const{tag}_{ci}.rs")
+            exe = os.path.join(wd, f"const{tag}_{ci}")
+            text, spans = program(chunks[ci])
+            open(src, "w").write(text)
+            rc, err = lib.rustc(src, exe)
+            if rc != 0:
+                return ("compile", ci, err, spans)
+            rc, out, err2 = E.run_exe(exe)
+            return ("run", ci, rc, out, err2)
+
+        def do_reject(r):
+            name, body = r
+            src = os.path.join(wd, f"reject{tag}_{name}.rs")
+            open(src, "w").write(PRELUDE + body + "\nfn main() {}\n")
+            rc, err = lib.rustc(src, out=os.path.join(wd, f"reject{tag}_{name}.rmeta"), check_only=True)
+            return name, body, rc, E.error_codes(err), err
+
+        results = E.pmap(do, range(nchunks))
+        rej_results = E.pmap(do_reject, rejects)
+        bad_items = {}
+        for r in results:
+            if r[0] == "compile":
+                _, ci, err, spans = r
+                hit = False
+                for m in re.finditer(r"--> [^\n]*const%s_%d\.rs:(\d+):" % (tag, ci), err):
+                    ln = int(m.group(1))
+                    for (a, b, it) in spans:
+                        if a <= ln <= b:
+                            first = err[max(0, err.rfind("error", 0, m.start())):m.start()].strip().splitlines()
+                            bad_items.setdefault(it.name, "the const evaluator rejected it: " + (first[0] if first else "error"))
+                            hit = True
+                if not hit:
+                    print(err[-3000:])
+                    print(f"INFRA: const program {ci} does not compile and the error could not be attributed to an item")
+                    return None
+            else:
+                _, ci, rc, out, err2 = r
+                if "DONE bad=" not in out:
+                    print(out[-1500:], err2[-1500:])
+                    print(f"INFRA: const program {ci} did not finish (rc={rc})")
+                    return None
+                for line in out.splitlines():
+                    if line.startswith("FAIL "):
+                        bad_items.setdefault(line.split()[1], line)
+        hdr = "" if cfg is None else "// configuration: release_full\n"
+        for name, why in list(bad_items.items())[:12]:
+            it = by_name[name]
+            text, _ = program([it])
+            path = E.save_replay(root, pid, it.tmpl, f"{hdr}// C18 item: template={it.tmpl} params={it.params}\n// expect: accept\n" + text)
+            failures.append({"msg": f"{label}{it.tmpl} {it.params}: {why}", "replay": path})
+        for name, body, rc, codes, err in rej_results:
+            if rc == 0 or "E0080" not in codes:
+                text = f"{hdr}// C18 item: {name}\n// expect: reject\n" + PRELUDE + body + "\nfn main() {}\n"
+                path = E.save_replay(root, pid, "reject_" + name[:30], text)
+                failures.append({"msg": f"{label}const item {name} must be rejected with E0080 but rustc said rc={rc} codes={codes}", "replay": path})
     classes = {}
     for it in items:
         classes[it.tmpl] = classes.get(it.tmpl, 0) + 1
@@ -354,18 +383,18 @@ def run(root, pid, tier, seed, only=None, lfactor=3, rule=None):
     samples = [{"template": it.tmpl, "params": it.params, "body": it.body[:300], "expected_value": it.expect} for it in (items[1], items[5], items[len(items) // 2], items[-1])]
     samples.append({"reject": rejects[0][0], "body": rejects[0][1][:200]})
     return E.evidence(
-        pid, tier, seed, "exploration", len(items) + len(rejects), len(nontrivial) + len(rejects),
+        pid, tier, seed, "exploration", 2 * (len(items) + len(rejects)), len(nontrivial) + len(rejects),
         rule or "const items generated for each const fn of the crate (len, from_array/into_array, as_slice, as_mut_slice, from_slice, try_from_slice, from_mut_slice, try_from_mut_slice, chunks_from_slice(_mut), slice_from_chunks(_mut), from_chunks(_mut), into_chunks(_mut), uninit/assume_init, arr! in its three forms (including type-level length expressions without a name), const_default) x N in {0,1,2,3,7,8,16,17,33,64,100,255,256,1024} x slice lengths (every L in 0..=3N+2 for N <= 17, boundary L beyond; N-1, N, N+1, 0 for the fallible forms) x element types u8, u32, (u8,u16), () x shared / mutable forms with writes through the result; seeded data. "
         "Oracle: (1) the compiler's const evaluator accepts the item (it rejects out-of-bounds and dangling pointers, writes through read-only provenance, uninitialised reads, invalid values with E0080); (2) its value - a checksum over every length and every element read - equals the value python computed natively; (3) main() re-evaluates the same const fn at run time and compares with the const value. Reject items (from_slice / from_mut_slice with L != N, chunks with N = 0 and a non-empty slice, assume_init of a partly written array) are compiled separately and must fail with E0080. "
-        "non-trivial = items with N >= 1 and all reject items; distinct = distinct (template, parameters)",
+        "Everything is compiled twice: against the crate built in the dev profile (debug assertions on) and in the release profile (off). non-trivial = items with N >= 1 and all reject items; distinct = distinct (template, parameters)",
         samples, classes, exhaustive=False,
         assumptions=["this rustc's const evaluator is the UB detector; it checks the instantiations the generated items contain"],
         failures=failures, wall=time.time() - t0, extra={"programs": nchunks + len(rejects)})
 
 
 def replay(root, pid, path):
-    lib = E.Lib(root)
     text = open(path).read()
+    lib = E.Lib(root, E.RELEASE_FULL if text.startswith("// configuration: release_full") else None)
     exe = os.path.join(E.workdir(root, pid), "replay_exe")
     rc, err = lib.rustc(path, exe)
     if "// expect: reject" in text:
